@@ -104,7 +104,11 @@ def impl(d):
     tx = tx_build(d["tx"]); spks = [Script([tok_py(x) for x in s]) for s in d["spks"]]
     if k == "key":
         priv = PrivateKey(secret_exponent=d["key"])
-        sig = priv.sign_taproot_input(tx, d["i"], spks, d["amts"], False, tapleaf_scripts=sarg_py(d["sc"]), sighash=d["ht"])
+        if d["key"] % 2 == 0:
+            # the documented parameter order, positionally: (tx, txin_index, utxo_scripts, amounts, script_path, tapleaf_script, tapleaf_scripts, sighash)
+            sig = priv.sign_taproot_input(tx, d["i"], spks, d["amts"], False, Script([]), sarg_py(d["sc"]), d["ht"])
+        else:
+            sig = priv.sign_taproot_input(tx, d["i"], spks, d["amts"], False, tapleaf_scripts=sarg_py(d["sc"]), sighash=d["ht"])
         sig2 = PrivateKey(secret_exponent=d["key"]).sign_taproot_input(tx_build(d["tx"]), d["i"], spks, d["amts"], False,
                                                                      tapleaf_scripts=sarg_py(d["sc"]), sighash=d["ht"])
         addr = priv.get_public_key().get_taproot_address(sarg_py(d["sc"]))
@@ -112,7 +116,10 @@ def impl(d):
     if k == "script":
         priv = PrivateKey(secret_exponent=d["key"])
         leaf = Script([tok_py(x) for x in d["leaf"]])
-        sig = priv.sign_taproot_input(tx, d["i"], spks, d["amts"], True, tapleaf_script=leaf, sighash=d["ht"], tweak=False)
+        if d["key"] % 2 == 0:
+            sig = priv.sign_taproot_input(tx, d["i"], spks, d["amts"], True, leaf, None, d["ht"], False)
+        else:
+            sig = priv.sign_taproot_input(tx, d["i"], spks, d["amts"], True, tapleaf_script=leaf, sighash=d["ht"], tweak=False)
         sig2 = PrivateKey(secret_exponent=d["key"]).sign_taproot_input(tx_build(d["tx"]), d["i"], spks, d["amts"], True, tapleaf_script=leaf,
                                                                      sighash=d["ht"], tweak=False)
         return sig + "|" + priv.get_public_key().to_x_only_hex() + "|%d" % (sig == sig2)
